@@ -358,6 +358,92 @@ pub fn start_watchdog() {
         }
     });
 }
+thread_local! {
+    /// (arrived, released): set on the thread that the lock probe holds at "dropall.taken"
+    static PROBE_HOLD: std::cell::RefCell<Option<Arc<(Mutex<(bool, bool)>, Condvar)>>> = std::cell::RefCell::new(None);
+}
+
+/// The lock probe (case tag 3, `(3 nflush nforce)`): the owner is dropped while `nflush` flush guards are alive; thread A
+/// drops one force-flush guard and is held right after it took the keep-alive closure (before it closes and appends the
+/// entry); thread B drops another force-flush guard meanwhile.  "Appended at the moment ... some force-flush guard has
+/// been dropped, never later": when B's drop returns, the entry must have been appended — in the code as it is B waits
+/// for A on the guard's mutex.  Returns Ok when B either was still waiting after the probe time or returned with the
+/// entry appended.
+fn exec_lock_probe(nflush: usize, nforce: usize) -> Result<(), String> {
+    progress();
+    install_controller();
+    let mut w = World::new();
+    for _ in 0..nflush { w.apply(Op::NewFlush); }
+    for _ in 0..nforce.max(2) { w.apply(Op::NewForce); }
+    w.apply(Op::Mutate(7));
+    w.apply(Op::DropOwner(0));
+    let sink = w.sink.clone();
+    if sink.count() != 0 {
+        return Err("the entry was appended while flush guards were alive and no force-flush guard had been dropped".into());
+    }
+    let fa = w.ffs.remove(0);
+    let fb = w.ffs.remove(0);
+    let gate = Arc::new((Mutex::new((false, false)), Condvar::new()));
+    let g2 = gate.clone();
+    let a = std::thread::spawn(move || {
+        PROBE_HOLD.with(|p| *p.borrow_mut() = Some(g2));
+        drop(fa);
+        PROBE_HOLD.with(|p| *p.borrow_mut() = None);
+    });
+    {
+        let (m, cv) = &*gate;
+        let mut st = m.lock().unwrap();
+        let lim = std::time::Instant::now() + std::time::Duration::from_secs(5);
+        while !st.0 && std::time::Instant::now() < lim {
+            st = cv.wait_timeout(st, std::time::Duration::from_millis(20)).unwrap().0;
+        }
+        if !st.0 {
+            st.1 = true;
+            cv.notify_all();
+            drop(st);
+            let _ = a.join();
+            return Err("the first force-flush guard's drop never took the keep-alive closure".into());
+        }
+    }
+    let s2 = sink.clone();
+    let done = Arc::new((Mutex::new(None::<usize>), Condvar::new()));
+    let d2 = done.clone();
+    let b = std::thread::spawn(move || {
+        drop(fb);
+        let c = s2.count();
+        *d2.0.lock().unwrap() = Some(c);
+        d2.1.notify_all();
+    });
+    // give B time to run into the mutex (or through it)
+    let seen = {
+        let (m, cv) = &*done;
+        let mut st = m.lock().unwrap();
+        let lim = std::time::Instant::now() + std::time::Duration::from_millis(60);
+        while st.is_none() && std::time::Instant::now() < lim {
+            st = cv.wait_timeout(st, std::time::Duration::from_millis(10)).unwrap().0;
+        }
+        *st
+    };
+    {
+        let (m, cv) = &*gate;
+        m.lock().unwrap().1 = true;
+        cv.notify_all();
+    }
+    let _ = a.join();
+    let _ = b.join();
+    let at_return = done.0.lock().unwrap().unwrap_or(usize::MAX);
+    drop(w);
+    let total = sink.count();
+    if let Some(c) = seen {
+        if c == 0 {
+            return Err("a force-flush guard's drop returned (owner gone) while another thread was still between taking the keep-alive closure and appending: the entry was not appended yet".into());
+        }
+    }
+    if at_return != 1 { return Err(format!("{at_return} entries had been appended when the second force-flush guard's drop returned")); }
+    if total != 1 { return Err(format!("{total} entries appended in the end")); }
+    Ok(())
+}
+
 pub fn set_perturb(r: Option<Rng>) {
     PERTURB.with(|p| *p.borrow_mut() = r);
 }
@@ -379,6 +465,19 @@ pub fn sync_point(name: &'static str) {
     if let Some((s, tid)) = cur {
         s.pause(tid, name);
         return;
+    }
+    // the lock probe: this thread is to be held right after it took the keep-alive closure out of the guard's mutex
+    if name == "dropall.taken" {
+        if let Some(g) = PROBE_HOLD.with(|p| p.borrow().clone()) {
+            let (m, cv) = &*g;
+            let mut st = m.lock().unwrap();
+            st.0 = true;
+            cv.notify_all();
+            while !st.1 {
+                st = cv.wait(st).unwrap();
+            }
+            return;
+        }
     }
     let n = PERTURB.with(|p| p.borrow_mut().as_mut().map(|r| r.below(8)));
     if let Some(n) = n {
@@ -650,6 +749,7 @@ pub fn exec(case: &Sx) -> (Sx, bool) {
             let prog = dec_prog(case.arg(1));
             (sx::boolean(exec_stress(&setup, &prog, case.arg(2).num() as u64).is_ok()), true)
         }
+        3 => (sx::boolean(exec_lock_probe(case.arg(0).num() as usize, case.arg(1).num() as usize).is_ok()), true),
         _ => {
             let ops: Vec<Op> = case.arg(0).list().iter().map(dec_op).collect();
             let guards = ops.iter().any(|o| matches!(o, Op::NewFlush | Op::NewForce));
@@ -1040,6 +1140,19 @@ pub fn run(ctx: &Ctx) {
             let (imp, _, tids) = exec_threads(&setup, &prog, &mut choose);
             tout.case(&thread_case(&setup, &prog, &tids), &imp, true);
             tout.count("sched_random_config");
+        }
+    }
+    // the lock probe: a second force-flush guard dropped while the first is between taking the keep-alive closure and
+    // appending (owner gone, flush guards alive) must not return before the entry is appended
+    for (nflush, nforce) in [(1usize, 2usize), (2, 2), (1, 3), (3, 3)] {
+        for _ in 0..(if ctx.tier_thorough { 5 } else { 2 }) {
+            let case = sx::tag(3, vec![sx::n(nflush as u64), sx::n(nforce as u64)]);
+            let r = exec_lock_probe(nflush, nforce);
+            if let Err(e) = &r {
+                tout.fail(format!("lock probe: {e}"), &case);
+            }
+            tout.case(&case, &sx::boolean(r.is_ok()), true);
+            tout.count("lock_probe_runs");
         }
     }
     // free-running stress, predicate only
